@@ -73,6 +73,7 @@ theorem step_txinv (s : State) (op : Op) (h : TxInv s) (hop : op.benign s.kind =
     have hf := serviceReceiveOnce_frame s
     exact ⟨by rw [hf.kind, hf.sendScript]; exact hb, by rw [hf.sent, hf.txes, hf.queued]; exact hc⟩
   | clearRxbs => exact ⟨hb, hc⟩
+  | catRxbs => exact ⟨hb, hc⟩
   | setLive b => exact ⟨hb, hc⟩
 
 theorem run_kind (s : State) (ops : List Op) : (run s ops).kind = s.kind := by
@@ -184,6 +185,7 @@ theorem step_subinv (s : State) (op : Op) (h : SubInv s) : SubInv (step s op).st
     have hf := serviceReceiveOnce_frame s
     rw [hf.sent, hf.txes, hf.queued]; exact h
   | clearRxbs => exact h
+  | catRxbs => exact h
   | setLive b => exact h
 
 /-- **C24, any answers at all** (including errors that make `send` raise, after which the
@@ -223,6 +225,7 @@ theorem step_wtx (s : State) (op : Op) (h : WTx s) : WTx (step s op).state := by
     have hf := serviceReceiveOnce_frame s
     unfold WTx; rw [hf.wlogOn, hf.kind, hf.wtx, hf.sent]; exact h
   | clearRxbs => exact h
+  | catRxbs => exact h
   | setLive b => exact h
 
 /-- **C24, wire log.** On a socket transport with a wire log the data parts of the tx records,
@@ -263,6 +266,9 @@ theorem step_rxinv (s : State) (op : Op) (h : RxInv s) : RxInv (step s op).state
   | clearRxbs =>
     obtain ⟨h0, h1, h2, h3⟩ := h
     exact ⟨by simpa [step, Res.state] using h0, h1, h2, h3⟩
+  | catRxbs =>
+    obtain ⟨h0, h1, h2, h3⟩ := h
+    exact ⟨by simpa [step, Res.state] using h0, h1, h2, h3⟩
   | setLive b => exact h
 
 /-- **C24, receive side.** For every transport, history and script of `recv` answers (chunks,
@@ -288,7 +294,7 @@ theorem C24_rx_append_in_order (k : Kind) (wlog : Bool) (ops : List Op) :
 example :
     let s := run (init .client true)
       [.feedRx [.data [1, 2], .data [3], .wouldBlock, .data [4], .data [], .data [9]],
-       .serviceReceives, .clearRxbs, .serviceReceiveOnce, .serviceReceives, .serviceReceives]
+       .serviceReceives, .catRxbs, .serviceReceiveOnce, .serviceReceives, .serviceReceives]
     s.taken = [1, 2, 3] ∧ s.rxbs = [4] ∧ s.recvd = [1, 2, 3, 4] ∧ s.cutoff = true ∧
       s.wrx = [[1, 2], [3], [4]] ∧ s.recvScript = [.data [9]] := by decide
 
